@@ -181,7 +181,8 @@ CHECKS["C10"] = dict(
     rule="rapid draws a GraphSpec, paradigm, handler supply plan and release order; non-trivial = (>= 2 designated handlers on top-level nodes, >= 2 gated bodies observed waiting at the same time, per-call handlers in >= 2 options) or (Stream paradigm with a full handler closing its copy early and >= 2 executions); distinct = FNV-1a of case JSON",
     assumptions=GRAPH_ASSUME,
     parts=[rapid_part("rapid", "compose", "TestC10", 1500, 96000, race=True, replay_test="TestC10Replay", replay_reps=5),
-           rapid_part("tools", "compose", "TestC10Tools", 1000, 30000, race=True, replay_test="TestC10ToolsReplay", replay_reps=3)],
+           rapid_part("tools", "compose", "TestC10Tools", 1000, 30000, race=True, replay_test="TestC10ToolsReplay", replay_reps=3),
+           rapid_part("components", "compose", "TestC10Components", 4000, 400000, race=True, replay_test="TestC10ComponentsReplay")],
 )
 
 CHECKS["C11"] = dict(
